@@ -17,7 +17,7 @@ missed = []
 for f in sorted(glob.glob(os.path.join(V, "seeded", "*", "meta.json"))):
     m = json.load(open(f))
     rows.append("| `%s` | %s | %s | %s |" % (m["id"], m["property"], m["needs_to_manifest"].replace("|", "/"), m["caught_by"].replace("|", "/")))
-    if "MISSED" in m["caught_by"]:
+    if "MISSED" in m["caught_by"] or "first missed" in m["caught_by"]:
         missed.append(m["id"])
 head = "| seeded change | property | what it needs to manifest | caught by |\n|---|---|---|---|\n"
 a = s.index(head) + len(head)
